@@ -125,6 +125,58 @@ def run(report, db, tier):
             report.ok(R, 'VarLong.%s passes the inherited codec through' % fn)
     if not own:
         report.ok(R, 'VarLong defines only %s' % sorted(vl.attrs))
+    # ... and every entry point VarLong *inherits* must reach the codec as
+    # VarLong too: a method of VarInt (or Type) that calls VarInt.read by
+    # name runs it with cls = VarInt whoever inherited the method
+    codec = {nm: db.own_method(vi, nm) for nm in ('read', 'send', 'size')}
+    n_in = 0
+    for nm in ('read', 'send', 'size', 'read_with_context',
+               'send_with_context'):
+        m = db.find_method(vl, nm)
+        if m is None or m.cls is vl or m in codec.values() or \
+                isinstance(m.node, ast.Lambda) and False:
+            continue
+        n_in += 1
+        try:
+            mpaths = S.run(m)
+        except AnalysisError:
+            raise
+        hit = None
+        for p in mpaths:
+            for e in p.flat(('call',)):
+                f0 = e.fn
+                base = next((b for b in codec.values() if b is not None
+                             and e.calls(b)), None)
+                if base is None or base.kind != 'class':
+                    continue
+                if not (f0[0] == 'fn' and len(f0) > 2 and f0[2]
+                        and f0[2][0] == 'cls' and f0[2][1] is not vl):
+                    continue
+                first = base.params[0] if base.params else None
+                for a in sorted({x.attr for x in ast.walk(base.node)
+                                 if isinstance(x, ast.Attribute)
+                                 and isinstance(x.value, ast.Name)
+                                 and x.value.id == first}):
+                    if db.find_attr(vl, a) is not db.find_attr(f0[2][1], a):
+                        hit = (e, a, f0[2][1])
+                        break
+                if hit:
+                    break
+            if hit:
+                break
+        if hit:
+            e, a, c = hit
+            report.violation(
+                R, 'varlong:rebound:%s:%s' % (nm, a), m.path, e.node,
+                m.qualname, 'VarLong.%s is inherited from %s and calls '
+                '%s.%s by name: run for VarLong it decodes with %s.%s '
+                'instead of VarLong.%s, so this entry point and VarLong.%s '
+                'disagree' % (nm, m.cls.name if m.cls else '?', c.name,
+                              e.method(), c.name, a, a, e.method()))
+        else:
+            report.ok(R, 'VarLong.%s (inherited from %s) keeps cls' % (
+                nm, m.cls.name if m.cls else '?'))
+    report.floor('inherited VarLong entry points', n_in, 2)
 
 
 # ---------------------------------------------------------------------------
